@@ -425,7 +425,7 @@ def flow_dual(ctx, suite, nq, nt, chunk, extra=(), label=None):
         ctx.violations.append({"flow": "V", "suite": suite, "op": h.get("op"), "event": h, "why": "hang-dev",
                                "params": {"suite": suite, "profile": "dev", "seed": ctx.seed, "n": n, "tier": ctx.tier, "extra": list(extra)}})
     # the dev trace: no panic (every dev event is compared with the validated release event)
-    compare_profiles(ctx, label or suite, a, b)
+    compare_profiles(ctx, label or suite, a, b, rp={"dual": True, "suite": suite, "n": n, "extra": list(extra), "label": label or suite, "chunk": chunk})
 
 
 def p_C18(ctx):
@@ -438,7 +438,7 @@ def p_C18(ctx):
     flow_dual(ctx, "affine", 10 ** 9, 10 ** 9, 60, extra=["--in", tw])
     flow_dual(ctx, "group", 900, 12000, 300)
     flow_dual(ctx, "encode", 360, 3600, 180)
-    flow_dual(ctx, "gt", 120, 1500, 60)
+    flow_dual(ctx, "gt", 120, 1500, 60, extra=["--focus", "nosweep"])
     flow_dual(ctx, "pairing", 90, 900, 24, extra=["--focus", "agree"], label="pairing-agree")
     flow_dual(ctx, "pairing", 60, 600, 24, extra=["--focus", "laws"], label="pairing-laws")
     flow_dual(ctx, "tower", 100, 1000, 50)
@@ -446,14 +446,16 @@ def p_C18(ctx):
     flow_dual(ctx, "fmachine", 1500, 15000, 10 ** 9, label="fmachine")
 
 
-def compare_profiles(ctx, suite, a, b):
+def compare_profiles(ctx, suite, a, b, rp=None):
     """C08/C18: the same driver source built twice must record the same events (field by field)."""
     n = 0
+    rp = rp or {"dual": True, "suite": suite, "n": 10 ** 9, "extra": [], "label": suite, "chunk": 700}
+    rp = dict(rp, seed=ctx.seed, tier=ctx.tier)
     with open(a) as fa, open(b) as fb:
         la, lb = fa.readlines(), fb.readlines()
     if len(la) != len(lb):
         ctx.violations.append({"flow": "P", "suite": suite, "op": "profile-length", "why": "profile-divergence",
-                               "event": {"op": "profile-length", "release": len(la), "dev": len(lb)}, "params": {"suite": suite, "seed": ctx.seed, "tier": ctx.tier}})
+                               "event": {"op": "profile-length", "release": len(la), "dev": len(lb)}, "params": rp})
     for x, y in zip(la, lb):
         if x != y:
             n += 1
@@ -461,7 +463,7 @@ def compare_profiles(ctx, suite, a, b):
                 ex, ey = json.loads(x), json.loads(y)
                 ctx.violations.append({"flow": "P", "suite": suite, "op": ex.get("op"), "why": "profile-divergence",
                                        "event": {"op": ex.get("op"), "release": ex, "dev": ey},
-                                       "params": {"suite": suite, "seed": ctx.seed, "tier": ctx.tier, "n": 10 ** 9, "extra": []}})
+                                       "params": rp})
     ctx.flows.append({"flow": "P", "suite": suite, "compared": min(len(la), len(lb)), "divergent": n})
     ctx.classes[f"profile-compared-{suite}"] = min(len(la), len(lb))
 
@@ -599,6 +601,15 @@ def replay_file(path):
     r = json.load(open(path))
     pid = r["property"]
     p = r.get("params") or {}
+    if r.get("flow") == "P" or (r.get("flow") == "V" and p.get("profile") == "dev"):
+        ctx = Ctx(pid + "-replay", p.get("tier", "quick"), p.get("seed", 1))
+        flow_dual(ctx, p["suite"], p.get("n", 10 ** 9), p.get("n", 10 ** 9), p.get("chunk", 700), extra=p.get("extra", ()), label=p.get("label"))
+        same = [v for v in ctx.violations if v.get("op") == r.get("op")]
+        print(f"replay of {path}: {len(ctx.violations)} divergent / mismatching event(s), {len(same)} with op {r.get('op')}")
+        if same:
+            print(f"VIOLATION property={pid} replay={path}")
+            return 1
+        return 0
     if r.get("flow") == "V":
         ctx = Ctx(pid + "-replay", p.get("tier", "quick"), p.get("seed", 1))
         if "parts" in p:
